@@ -51,6 +51,39 @@ Theorem grpc_server_same : forall st hs reqs, grpc_server st hs reqs = ref_serve
 Proof. exact grpc_server_same_proof. Qed.
 Print Assumptions grpc_server_same.
 
+(* ---------- the reference client's set-up of the HTTP method (glue: referenceclient/client.go) ---------- *)
+(* under the documented set-up a call goes out as GET exactly when the case sets use_get_http_method, whatever the
+   length of the URL (= whatever the size of the request message) *)
+Theorem get_case_sent_as_get : forall use_get len, sent_as_get documented_get_setup use_get len = use_get.
+Proof. exact get_case_sent_as_get_proof. Qed.
+Print Assumptions get_case_sent_as_get.
+
+(* a cap on the URL length, whatever its value, sends some GET case out as POST *)
+Theorem url_cap_falls_back : forall cap, exists len, sent_as_get (mkGS true (Some cap)) true len = false.
+Proof. exact url_cap_falls_back_proof. Qed.
+Print Assumptions url_cap_falls_back.
+
+(* the GET options the reference client installs now (C02_Consts.v, regenerated from the sources of
+   internal/app/referenceclient on every run) are the documented set-up *)
+Theorem installed_get_setup_documented : forall cap, setup_of c02_client_get_options cap = documented_get_setup.
+Proof. exact installed_get_setup_documented_proof. Qed.
+Print Assumptions installed_get_setup_documented.
+
+(* expectation_agrees with that set-up between the test case and the transport: for every URL length *)
+Theorem expectation_met_any_url_length :
+  forall len tr_req tr_query tr_rsp, transport_ok tr_req tr_query tr_rsp ->
+  forall tc codec comp e, wf tc = true -> fd_immediate_error_multi tc = false -> known_codec codec ->
+  expected codec tc = Ok e ->
+  forall sv cl, peers_apply sv cl tc ->
+  passes tr_req (fun g => tr_query (sent_as_get documented_get_setup g len)) tr_rsp sv cl codec comp tc e.
+Proof. exact expectation_met_any_url_length_proof. Qed.
+Print Assumptions expectation_met_any_url_length.
+
+Example ex_url_cap : sent_as_get (mkGS true (Some 8192%Z)) true 5500%Z = true /\
+                     sent_as_get (mkGS true (Some 8192%Z)) true 16500%Z = false /\
+                     setup_of [1; 2]%Z 8192%Z = mkGS true (Some 8192%Z).
+Proof. vm_compute. auto. Qed.
+
 (* ---------- examples ---------- *)
 Definition ex_hdr := mkH (bs "X-Custom") [bs "v1"; bs "v2"].
 Definition ex_def (datas : list bytes) (e : option xerr) := mkRD [ex_hdr] [mkH (bs "x-t") [bs "t"]] datas e.
